@@ -259,6 +259,11 @@ func runC15(rec *vk.Rec, ci int, self string) {
 		}
 		watchdog.Stop()
 		cmd.Wait()
+		if !opened && !strings.HasPrefix(openFail, "OPENFAIL") {
+			// neither OPEN nor OPENFAIL before the child ended: the 120 s watchdog ended it - nothing was observed about reopening
+			rec.Inconclusive("the storing child reported neither OPEN nor OPENFAIL within its watchdog")
+			return
+		}
 		if !opened {
 			cls := "other"
 			if strings.Contains(openFail, "while opening memtables") {
